@@ -29,6 +29,7 @@ use identity_verification::jose::jws::JwsAlgorithm;
 use identity_verification::jose::jws::JwsHeader;
 use identity_verification::jws::CharSet;
 use identity_verification::MethodData;
+use identity_verification::MethodRelationship;
 use identity_verification::MethodScope;
 use identity_verification::VerificationMethod;
 use serde::de::DeserializeOwned;
@@ -225,14 +226,39 @@ macro_rules! purge_method_for_document_type {
       K: JwkStorage,
       I: KeyIdStorage,
     {
+      // `remove_method_and_scope` also removes all references to the method: remember the referencing
+      // relationships so that a failed purge can restore them together with the method.
+      let relationships: Vec<MethodRelationship> = [
+        MethodRelationship::Authentication,
+        MethodRelationship::AssertionMethod,
+        MethodRelationship::KeyAgreement,
+        MethodRelationship::CapabilityDelegation,
+        MethodRelationship::CapabilityInvocation,
+      ]
+      .into_iter()
+      .filter(|relationship| {
+        document
+          .resolve_method(id, Some(MethodScope::VerificationRelationship(*relationship)))
+          .is_some()
+      })
+      .collect();
       let (method, scope) = document.remove_method_and_scope(id).ok_or(Error::MethodNotFound)?;
+      // Reverts the removal: reinserts the method and, for a general purpose method, the references to it.
+      let mut reinsert_method = |method: VerificationMethod, scope: MethodScope| {
+        let _ = document.insert_method(method, scope);
+        if scope == MethodScope::VerificationMethod {
+          for relationship in relationships.iter() {
+            let _ = document.attach_method_relationship(id, *relationship);
+          }
+        }
+      };
 
       // Obtain method digest and handle error if this operation fails.
       let method_digest: MethodDigest = match MethodDigest::new(&method).map_err(Error::MethodDigestConstructionError) {
         Ok(digest) => digest,
         Err(error) => {
           // Revert state by reinserting the method before returning the error.
-          let _ = document.insert_method(method, scope);
+          reinsert_method(method, scope);
           return Err(error);
         }
       };
@@ -245,7 +271,7 @@ macro_rules! purge_method_for_document_type {
         Ok(key_id) => key_id,
         Err(error) => {
           // Reinsert method before returning.
-          let _ = document.insert_method(method, scope);
+          reinsert_method(method, scope);
           return Err(error);
         }
       };
@@ -285,14 +311,14 @@ macro_rules! purge_method_for_document_type {
             })
           } else {
             // KeyId reinsertion succeeded. Now reinsert method.
-            let _ = document.insert_method(method, scope);
+            reinsert_method(method, scope);
             Err(Error::KeyStorageError(key_deletion_error))
           }
         }
         (Err(_key_deletion_error), Err(key_id_deletion_error)) => {
           // We assume this means nothing got deleted. Reinsert the method and return one of the errors (perhaps
           // key_id_deletion_error as we really expect the key id storage to work as expected at this point).
-          let _ = document.insert_method(method, scope);
+          reinsert_method(method, scope);
           Err(Error::KeyIdStorageError(key_id_deletion_error))
         }
       }
